@@ -112,8 +112,10 @@ def parseActTick (t : String) : WorkAct × Nat :=
   | [a, d] => (parseAct a, natD d)
   | _ => (.none, 0)
 
-/-- the part of a token before the first `@` (the callback's answer; what follows says what it does first) -/
-def tokHead (t : String) : String := (t.splitOn "@").headD ""
+/-- the part of a token before the first `@` (the callback's answer; what follows says what it does first); the mark
+    `~F` on a validator's answer (the validator OBJECT is falsy: a callable with `__len__() == 0`) is dropped — since
+    the fix "only None means no validation" such a validator is asked like any other -/
+def tokHead (t : String) : String := ((t.splitOn "@").headD "").replace "~F" ""
 
 /-- `<4 outcomes>[@<i><act>[:<us>]]*` — what the i-th checkpoint callback does before it answers -/
 def parseCpActs (cps : String) : List (Nat × WorkAct × Nat) :=
